@@ -163,7 +163,7 @@ var vReSite = regexp.MustCompile(`(?m)^\s+(/[^\s:]+\.go:\d+)`)
 
 func vPanicSite(stack string) string {
 	for _, x := range vReSite.FindAllStringSubmatch(stack, -1) {
-		if !strings.Contains(x[1], "zz_verif") && !strings.Contains(x[1], "/harness/") && !strings.Contains(x[1], "/go/src/") && !strings.Contains(x[1], "/pkg/mod/") && !strings.Contains(x[1], "/zzverif/") {
+		if !strings.Contains(x[1], "zz_verif") && !strings.Contains(x[1], "/harness/") && !strings.Contains(x[1], "/go/src/") && !strings.Contains(x[1], "/usr/lib/go") && !strings.Contains(x[1], "/pkg/mod/") && !strings.Contains(x[1], "/zzverif/") {
 			return strings.TrimPrefix(x[1], "/repo/")
 		}
 	}
